@@ -315,9 +315,6 @@ impl Op {
             Op::RejStatus => "S".to_string(),
         }
     }
-    pub fn is_reader_op(&self) -> bool {
-        matches!(self, Op::Read(_) | Op::Walk { .. })
-    }
 }
 
 #[derive(Clone, Debug)]
